@@ -137,4 +137,54 @@ theorem reach_eval {ctx : Ctx} {f : Nat} {env : Env} {s : St} {e : Expr} {p : Pa
       · rfl
       · exact ih3 st hst
 
+/-! ### the function around the body: conversion of the result, catch clauses -/
+
+theorem convTo_idem {t : Ty} {v v' : Val} (h : convTo t v = some v') : convTo t v' = none := by
+  cases t <;> cases v <;> simp_all [convTo] <;> subst h <;> rfl
+
+/-- the result cell of a call already holds a value of the declared result type: converting it again changes nothing -/
+theorem convCell_idem {t : Ty} {r l : Loc} {s s1 : St} (h : convCell t r s = .ok l s1) : convCell t l s1 = .ok l s1 := by
+  simp only [convCell, bind_eq, M.bind, load] at h ⊢
+  cases hv : s.mem[r]? with
+  | none => rw [hv] at h; cases h
+  | some v =>
+    rw [hv] at h
+    simp only [] at h
+    cases hc : convTo t v with
+    | none =>
+      rw [hc] at h
+      simp only [pure, M.pure] at h
+      injection h with h1 h2
+      subst h1; subst h2
+      simp [hv, hc, pure, M.pure]
+    | some v' =>
+      rw [hc] at h
+      simp only [alloc] at h
+      injection h with h1 h2
+      subst h1; subst h2
+      simp [convTo_idem hc, pure, M.pure]
+
+theorem callClo_result_converted {n : Nat} {ctx : Ctx} {fid : Nat} {cells args : List Loc} {s s1 : St} {l : Loc} {fn : FunEntry}
+    (hfn : ctx.findFun fid = some fn) (h : callClo n ctx fid cells args s = .ok l s1) : convCell fn.ret l s1 = .ok l s1 := by
+  cases n with
+  | zero => simp [callClo, oof, stopM] at h
+  | succ n =>
+    simp only [callClo, hfn] at h
+    split at h
+    · simp [stuck, stopM] at h
+    · simp only [bind_eq, M.bind] at h
+      split at h
+      · rename_i env s0 _
+        split at h
+        · exact convCell_idem h
+        · cases h
+        · cases h
+      · cases h
+      · cases h
+
+/-- with no fuel nothing but the node itself is reached, and it does not evaluate -/
+theorem reach_zero {ctx : Ctx} {env : Env} {s : St} {e : Expr} {p : Path} {f' : Nat} {env' : Env} {s' : St} {x : Expr}
+    (h : Reach ctx 0 env s e p f' env' s' x) : f' = 0 := by
+  cases h; rfl
+
 end Never.Src.Tail
